@@ -104,7 +104,7 @@ def coq_makefile():
             raise RuntimeError(out)
 
 
-def coq_make(targets=None, jobs=NCPU, timeout=3000):
+def coq_make(targets=None, jobs=NCPU, timeout=3000, keep_going=False):
     """full .vo build (never -vos) of the given targets (paths relative to coq/), or everything.
     Serialised by a lock file so that concurrent checks do not race on the Makefile or on .vo files."""
     import fcntl
@@ -113,7 +113,7 @@ def coq_make(targets=None, jobs=NCPU, timeout=3000):
         fcntl.flock(lk, fcntl.LOCK_EX)
         coq_makefile()
         tg = ' '.join(targets) if targets else ''
-        rc, out = sh(f'timeout {timeout} make -j{jobs} {tg}', cwd=COQ, timeout=timeout + 60)
+        rc, out = sh(f'timeout {timeout} make {"-k " if keep_going else ""}-j{jobs} {tg}', cwd=COQ, timeout=timeout + 60)
     return rc, out
 
 
